@@ -9,7 +9,7 @@ from pyfront import (Repo, CFG, canon, guard_literals, attr_accesses, literals,
                      qualname, calls_in, single_defs, TK, _Subst)
 from pyutil import params, deep_subst, find_calls, lit_fmt, rel, name_of
 from dtable import Walker
-from consteval import fold, Unknown
+from consteval import Ev, fold, Unknown, Raised
 
 EXPLANATION = (
     "Complete decision tables (all truth assignments of the branch atoms, with "
@@ -103,44 +103,43 @@ def r2_fake_drop(L, repo):
                 argc = t[len("self.ctrl_if.verify_cmd(%s, 'FAKE_DROP', " % REQ):].rstrip(")")
                 found[argc] = n
     L.require("C18.R2", F, fn, "FAKE_DROP forms handled (argument counts)", ["1", "2"], sorted(found))
+    ci0 = repo.need_class("fake_trx", "FakeTRX")
+    mod = repo.mod("fake_trx")
     for argc, br in sorted(found.items()):
-        subst = branch_subst(br.body)
-
-        def ev(st, subst=subst):
-            if isinstance(st, ast.Return):
-                return ("ret", canon(st.value) if st.value else None)
-            if isinstance(st, ast.Assign):
-                t = st.targets[0]
-                if isinstance(t, ast.Name):
-                    return None
-                return ("store", canon(t), canon(st.value, subst))
-            if isinstance(st, ast.AugAssign):
-                return ("aug", canon(st))
-            if isinstance(st, ast.Expr) and isinstance(st.value, ast.Call) and canon(st.value.func).startswith("log."):
-                return None
-            return ("other", canon(st)[:50])
-        W = Walker(ev, subst)
-        atoms, rows = W.table(br.body)
-        NUM = "int(%s[1]) < 0" % REQ
-        PER = "0 < int(%s[2])" % REQ
-        want_atoms = [NUM] if argc == "1" else [NUM, PER]
-        L.require("C18.R2", F, fn, "FAKE_DROP/%s: validation atoms" % argc, sorted(want_atoms), sorted(atoms))
-        if sorted(atoms) != sorted(want_atoms):
-            continue
-        for vals, evs in sorted(rows.items()):
-            a = dict(zip(atoms, vals))
-            valid = not a[NUM] and (argc == "1" or a[PER])
-            if valid:
-                want = {("store", "self.burst_drop_amount", "int(%s[1])" % REQ),
-                        ("store", "self.burst_drop_period", "1" if argc == "1" else "int(%s[2])" % REQ),
-                        ("ret", "0")}
-                ok = set(evs) == want and evs[-1] == ("ret", "0") and len(evs) == 3
-            else:
-                want = (("ret", "-1"),)
-                ok = evs == want
-            L.ob("C18.R2", F, fn, "FAKE_DROP/%s with amount_negative=%d%s" % (
-                argc, a[NUM], "" if argc == "1" else " period_positive=%d" % a[PER]),
-                sorted(want) if valid else want, evs, ok, br.lineno)
+        # the branch is comparison-only code over the two integers: fold it for boundary witnesses
+        nums = (-5, -1, 0, 1, 7)
+        pers = (-3, -1, 0, 1, 2, 51) if argc == "2" else (None,)
+        for num in nums:
+            for per in pers:
+                req = ["FAKE_DROP", str(num)] + ([str(per)] if per is not None else [])
+                env = {REQ: req, "self.burst_drop_amount": "<old amount>", "self.burst_drop_period": "<old period>"}
+                e = Ev(repo, mod, env=env, self_cls=ci0)
+                try:
+                    r = e.run_block(br.body)
+                except (Unknown, Raised) as ex:
+                    raise AnalysisError("FAKE_DROP/%s branch does not fold for %s: %s" % (argc, req, ex))
+                ret = r[1] if isinstance(r, tuple) else "<falls through>"
+                state = (e.env.get("self.burst_drop_amount"), e.env.get("self.burst_drop_period"))
+                valid = num >= 0 and (per is None or per > 0)
+                if valid:
+                    want = (0, (num, 1 if per is None else per))
+                else:
+                    want = (-1, ("<old amount>", "<old period>"))
+                L.require("C18.R2", F, fn, "FAKE_DROP %s: status and drop state afterwards (invalid arguments: -1 and state unchanged)" % " ".join(req[1:]),
+                          want, (ret, state), line=br.lineno)
+    # no partial update on a rejected command: every store is dominated by all validations (decided by the fold
+    # above for the witnesses; structurally: no store precedes a rejecting return)
+    cfg = CFG(fd)
+    for argc, br in sorted(found.items()):
+        stores = [n for n in ast.walk(br) if isinstance(n, (ast.Assign, ast.AugAssign)) and
+                  any(isinstance(t, ast.Attribute) and t.attr in ("burst_drop_amount", "burst_drop_period")
+                      for t in ([n.target] if isinstance(n, ast.AugAssign) else n.targets))]
+        rej = [n for n in ast.walk(br) if isinstance(n, ast.Return) and canon(n.value) != "0"]
+        for st_ in stores:
+            for r_ in rej:
+                L.ob("C18.R2", F, fn, "FAKE_DROP/%s: no drop-state store can precede a rejecting return" % argc,
+                     "store not followed by a rejection", "",
+                     not cfg.reachable(cfg.node_of(st_), cfg.node_of(r_)), st_.lineno)
 
 
 def r3_suppression(L, repo):
@@ -155,18 +154,20 @@ def r3_suppression(L, repo):
     DROP = "self.sim_burst_drop(%s)" % MSG
     A = {"mute": "self.rf_muted", "nope": NOPE, "drop": DROP, "v0": "%s.ver < 1" % MSG,
          "fake": "self.fake_rssi_enabled", "ta0": "0 == %s.ta" % SRC}
+    state = {"drop_calls": 0}
+
+    def on_atom(t):
+        if t == DROP:
+            state["drop_calls"] += 1
+
+    from dtable import eval_bool
 
     def update(st, assign):
         if isinstance(st, ast.Assign) and len(st.targets) == 1 and canon(st.targets[0]) == NOPE:
-            v = canon(st.value)
-            if v == "True":
-                assign[NOPE] = True
-            elif v == "False":
-                assign[NOPE] = False
-            elif v == DROP:
-                assign[NOPE] = assign[DROP]
-            else:
-                raise AnalysisError("handle_data_msg: assignment to nope_ind unclassifiable: %s" % v)
+            try:
+                assign[NOPE] = bool(eval_bool(st.value, assign, None, W.norm, on_atom))
+            except AnalysisError:
+                raise AnalysisError("handle_data_msg: assignment to nope_ind unclassifiable: %s" % canon(st.value))
 
     def ev(st):
         if isinstance(st, ast.Return):
@@ -177,7 +178,7 @@ def r3_suppression(L, repo):
             t = canon(st.targets[0])
             v = canon(st.value)
             if t == NOPE:
-                return ("nope:=", v)
+                return None
             if t.startswith(MSG + "."):
                 return ("set", t[len(MSG) + 1:], v)
             return ("other", canon(st)[:50])
@@ -190,32 +191,37 @@ def r3_suppression(L, repo):
             t = canon(st.value)
             if t.startswith("log."):
                 return None
+            if t == DROP:
+                state["drop_calls"] += 1
+                return None
             return ("call", t)
         if isinstance(st, ast.Expr) and isinstance(st.value, ast.Constant):
             return None
         return ("other", canon(st)[:50])
 
-    W = Walker(ev, update=update)
+    W = Walker(ev, update=update, on_atom=on_atom)
     atoms = W.atoms(fd.body)
-    if DROP not in atoms:
-        atoms.append(DROP)       # oracle atom: result of the drop simulation
-    atoms, rows = W.table(fd.body, atoms)
-    L.require("C18.R3", F, fn, "atoms of the suppression decision", sorted(A.values()), sorted(atoms))
-    if sorted(atoms) != sorted(A.values()):
-        return
+    for need in A.values():
+        if need not in atoms:
+            atoms.append(need)
+    unknown = [a for a in atoms if a not in A.values()]
+    if len(atoms) > 9:
+        raise AnalysisError("handle_data_msg: too many branch atoms: %s" % atoms)
+    import itertools
     nrows = 0
-    for vals, evs in sorted(rows.items()):
+    for vals in itertools.product([False, True], repeat=len(atoms)):
         a = dict(zip(atoms, vals))
+        state["drop_calls"] = 0
+        evs = []
+        W.walk(fd.body, dict(a), evs)
         mute, nope0, drop, v0 = a[A["mute"]], a[A["nope"]], a[A["drop"]], a[A["v0"]]
-        want = []
         if mute:
-            want.append(("nope:=", "True"))
-            nope = True
+            nope, calls = True, 0
         elif not nope0:
-            want.append(("nope:=", DROP))
-            nope = drop
+            nope, calls = drop, 1
         else:
-            nope = True
+            nope, calls = True, 0
+        want = []
         if nope:
             if v0:
                 want.append(("ret",))
@@ -225,16 +231,13 @@ def r3_suppression(L, repo):
                          ("call", "self.data_if.send_msg(%s)" % MSG), ("ret",)]
         else:
             want.append(("set", "toa256", "self.toa256"))
-            if not a[A["fake"]]:
-                want.append(("set", "rssi", None))   # formula checked by C10
-            else:
-                want.append(("set", "rssi", "self.rssi"))
+            want.append(("set", "rssi", None if not a[A["fake"]] else "self.rssi"))
             if not v0:
                 want.append(("call", "self._handle_data_msg_v1(%s, %s)" % (SMSG, MSG)))
             if not a[A["ta0"]]:
                 want.append(("aug", "toa256", "Sub", None))
             want.append(("call", "Transceiver.handle_data_msg(self, %s)" % MSG))
-        # compare, treating None as wildcard, order-insensitive for the NOPE field stores
+
         def match(w, e):
             return len(w) == len(e) and all(x is None or x == y for x, y in zip(w, e))
         got = list(evs)
@@ -247,11 +250,13 @@ def r3_suppression(L, repo):
                     want[-2:] == got[-2:]
             else:
                 ok = all(match(w, e) for w, e in zip(want, got))
+        ok = ok and state["drop_calls"] == calls
         nrows += 1
+        extra = "".join(" %s=%d" % (u[:30], a[u]) for u in unknown)
         L.ob("C18.R3", F, fn,
-             "row rf_muted=%d already_nope=%d drop=%d ver0=%d fake_rssi=%d ta_zero=%d" % (
-                 mute, nope0, drop, v0, a[A["fake"]], a[A["ta0"]]),
-             want, got, ok, fd.lineno)
+             "row rf_muted=%d already_nope=%d drop=%d ver0=%d fake_rssi=%d ta_zero=%d%s" % (
+                 mute, nope0, drop, v0, a[A["fake"]], a[A["ta0"]], extra),
+             {"events": want, "drop_simulation_calls": calls}, {"events": got, "drop_simulation_calls": state["drop_calls"]}, ok, fd.lineno)
     L.floor("C18.R3", "rows of the suppression decision table", nrows, 64)
     # sender side: muted sender strips the burst, trans() turns that into NOPE
     ci, fm = repo.need_method("burst_fwd", "BurstForwarder", "forward_msg")
